@@ -28,6 +28,7 @@ MODULES = [
     ("Blocks", "gen_blocks"),
     ("Facts", "gen_facts"),
     ("Schema", "gen_schema"),
+    ("DeclPin", "gen_declpin"),
 ]
 
 
